@@ -26,30 +26,31 @@ theorem C04_scan_if (pre post : List Instruction) (kwIf : Str) (cond : List Str)
   simp only [Stmt.wf, Bool.and_eq_true] at h
   simp only [Stmt.noFn, Bool.and_eq_true] at hn
   obtain ⟨⟨⟨⟨hIf, hbw⟩, hew⟩, helse⟩, hEnd⟩ := h
-  have hb := scanBlock .kIf is body hbw hn.1.1
-  have he := scanElifs .kIf is elifs hew hn.1.2
-  have hel : kwElse.isSome = true → ScanP .kIf is elseBody.flatten (fun _ => []) := by
-    intro hs
-    cases kwElse with
-    | none => cases hs
-    | some k =>
-      simp only [Bool.and_eq_true] at helse
-      exact scanBlock .kIf is elseBody helse.2 hn.2
   have hElse : ∀ k, kwElse = some k → isElseKw k = true := by
     intro k hk
     subst hk
     simp only [Bool.and_eq_true] at helse
     exact helse.1
-  have hin := scan_ifInner body.flatten elifs.flatten kwElse elseBody.flatten
-    (fun off => elifAbs off elifs) hElse hb he hel
-  refine (scan_top (K := .kIf) pre post (mkInstr none kwIf cond) kwEnd _ _ hEnd hin).trans ?_
+  have helw : kwElse.isSome = true → elseBody.wf = true := by
+    intro hs
+    cases kwElse with
+    | none => cases hs
+    | some k =>
+      simp only [Bool.and_eq_true] at helse
+      exact helse.2
+  have hfl := ifChain_flatten kwIf cond body elifs kwElse elseBody kwEnd
+  show findCommands ifTables (pre ++ instrsFrom pre.length
+      (Stmt.ifChain kwIf cond body elifs kwElse elseBody kwEnd).flatten ++ post) (pre.length + 1) =
+    .ok ⟨(elseOffsets body elifs kwElse).map (pre.length + ·),
+      pre.length + (Stmt.ifChain kwIf cond body elifs kwElse elseBody kwEnd).flatten.length - 1⟩
+  rw [hfl]
+  refine (scan_top (K := .kIf) pre post (mkInstr none kwIf cond) kwEnd _ _ hEnd
+    (scan_ifInner body.flatten elifs.flatten kwElse elseBody.flatten (fun off => elifAbs off elifs)
+      hElse (scanBlock .kIf _ body hbw hn.1.1) (scanElifs .kIf _ elifs hew hn.1.2)
+      (fun hs => scanBlock .kIf _ elseBody (helw hs) hn.2))).trans ?_
   have hoff := elseOffsets_go_map pre.length elifs (1 + body.flatten.length) kwElse
-  have hlen : st.flatten.length =
-      1 + (body.flatten ++ elifs.flatten ++ elsePart kwElse elseBody.flatten).length + 1 := by
-    simp only [st, Stmt.flatten, elsePart, List.length_cons, List.length_append, List.length_nil]
-    omega
-  rw [hlen]
-  simp only [elseOffsets, hoff, ifMids, midK, if_true]
+  simp only [elseOffsets, hoff, ifMids, midK, if_true, List.length_cons, List.length_append,
+    List.length_nil]
   congr 2
   · congr 1
     · congr 1; omega
@@ -73,6 +74,7 @@ theorem C04_scan_while (pre post : List Instruction) (kw : Str) (cond : List Str
     omega
   rw [hlen]
   congr 2
+  omega
 
 /-- `for … in` loops -/
 theorem C04_scan_for (pre post : List Instruction) (kw : Str) (v handle : Str) (body : Block)
@@ -91,6 +93,7 @@ theorem C04_scan_for (pre post : List Instruction) (kw : Str) (v handle : Str) (
     omega
   rw [hlen]
   congr 2
+  omega
 
 /-- function definitions (bodies without nested definitions): the end of the definition -/
 theorem C04_scan_fn (pre post : List Instruction) (kw : Str) (isSc : Bool) (name : Str) (body : Block)
@@ -108,6 +111,7 @@ theorem C04_scan_fn (pre post : List Instruction) (kw : Str) (isSc : Bool) (name
     omega
   rw [hlen]
   congr 2
+  omega
 
 /-- the regenerated tables are mutually consistent (what the proofs above rely on):
     each scanner counts the openers / closers of all OTHER block kinds -/
@@ -126,16 +130,97 @@ theorem C04_tables_consistent :
   · exact forall_contains_or3 (by decide)
   · exact forall_contains_or3 (by decide)
   · exact forall_contains_or3 (by decide)
-  · intro k
-    exact ⟨forall_contains_or2 (by decide) k,
-      forall_contains (p := fun k => isElifKw k = true ∨ isElseKw k = true) (by decide) k⟩
-  · intro k
-    exact ⟨forall_contains_or (by decide) k, forall_contains (by decide) k⟩
-  · intro k
-    exact ⟨forall_contains_or (by decide) k, forall_contains (by decide) k⟩
-  · intro k
-    exact ⟨forall_contains_or (by decide) k, forall_contains (by decide) k⟩
-  · intro k
-    exact ⟨forall_contains_or (by decide) k, forall_contains (by decide) k⟩
+  · have h1 : ∀ k, isElifKw k = true ∨ isElseKw k = true → ifTables.middleNames.contains k = true :=
+      forall_contains_or2 (by decide)
+    have h2 : ∀ k, ifTables.middleNames.contains k = true → isElifKw k = true ∨ isElseKw k = true :=
+      forall_contains (by decide)
+    exact fun k => ⟨h1 k, h2 k⟩
+  · have h1 : ∀ k, isEndIfKw k = true → ifTables.endNames.contains k = true :=
+      forall_contains_or (by decide)
+    have h2 : ∀ k, ifTables.endNames.contains k = true → isEndIfKw k = true :=
+      forall_contains (by decide)
+    exact fun k => ⟨h1 k, h2 k⟩
+  · have h1 : ∀ k, isEndWhileKw k = true → whileTables.endNames.contains k = true :=
+      forall_contains_or (by decide)
+    have h2 : ∀ k, whileTables.endNames.contains k = true → isEndWhileKw k = true :=
+      forall_contains (by decide)
+    exact fun k => ⟨h1 k, h2 k⟩
+  · have h1 : ∀ k, isEndForKw k = true → forTables.endNames.contains k = true :=
+      forall_contains_or (by decide)
+    have h2 : ∀ k, forTables.endNames.contains k = true → isEndForKw k = true :=
+      forall_contains (by decide)
+    exact fun k => ⟨h1 k, h2 k⟩
+  · have h1 : ∀ k, isEndFnKw k = true → fnTables.endNames.contains k = true :=
+      forall_contains_or (by decide)
+    have h2 : ∀ k, fnTables.endNames.contains k = true → isEndFnKw k = true :=
+      forall_contains (by decide)
+    exact fun k => ⟨h1 k, h2 k⟩
+
+/-! ### non-vacuity: concrete nested programs satisfy the hypotheses, and the conclusions are
+    what evaluation of the scanner gives -/
+
+section NonVacuity
+
+private def ln (c : String) : Stmt := .line ⟨none, c.toList, ["x".toList]⟩
+
+/-- `if … (while … (If … else … end) end_while) ElseIf … else (for … end) fi` -/
+private def exIfParts : Block × Elifs × Block :=
+  (.cons (ln "echo") (.cons
+      (.whileLoop "while".toList ["c".toList]
+        (.cons (.ifChain "std::flowcontrol::If".toList ["d".toList] (.cons (ln "echo") .nil) .nil
+                  (some "else".toList) (.cons (.ret "return".toList none) .nil) "end".toList) .nil)
+        "end_while".toList) .nil),
+   .cons "std::flowcontrol::ElseIf".toList ["e".toList] (.cons (ln "set") .nil) .nil,
+   .cons (.forIn "for".toList "i".toList "h".toList (.cons (ln "echo") .nil) "end".toList) .nil)
+
+private def exIf : Stmt :=
+  .ifChain "if".toList ["a".toList] exIfParts.1 exIfParts.2.1 (some "std::flowcontrol::Else".toList)
+    exIfParts.2.2 "fi".toList
+
+private def exPre : List Instruction := instrsFrom 0 [mkInstr none "echo".toList [], mkInstr none "end".toList []]
+private def exPost : List Instruction := instrsFrom 20 [mkInstr none "else".toList [], mkInstr none "end".toList []]
+
+example : exIf.wf = true := by decide
+example : exIf.noFn = true := by decide
+example : exIf.flatten.length = 16 := by decide
+example : elseOffsets exIfParts.1 exIfParts.2.1 (some "std::flowcontrol::Else".toList) = [9, 11] := by decide
+
+/-- the theorem applied (between unrelated lines that contain stray `end` / `else` words) -/
+example : findCommands ifTables (exPre ++ instrsFrom exPre.length exIf.flatten ++ exPost) (2 + 1) =
+    .ok ⟨[11, 13], 17⟩ :=
+  C04_scan_if exPre exPost "if".toList ["a".toList] exIfParts.1 exIfParts.2.1
+    (some "std::flowcontrol::Else".toList) exIfParts.2.2 "fi".toList (by decide) (by decide)
+
+/-- … and the scanner evaluated directly -/
+example : findCommands ifTables (exPre ++ instrsFrom exPre.length exIf.flatten ++ exPost) 3 =
+    .ok ⟨[11, 13], 17⟩ := by rfl
+
+/-- `while … (While … end) (if … end) endwhile` -/
+private def exWhileBody : Block :=
+  .cons (.whileLoop "std::flowcontrol::While".toList [] (.cons (ln "echo") .nil) "end".toList)
+    (.cons (.ifChain "if".toList [] (.cons (ln "echo") .nil) .nil none .nil "end".toList) .nil)
+
+example : findCommands whileTables (exPre ++ instrsFrom exPre.length
+      (Stmt.whileLoop "while".toList [] exWhileBody "endwhile".toList).flatten ++ exPost) (2 + 1) =
+    .ok ⟨[], 9⟩ :=
+  C04_scan_while exPre exPost "while".toList [] exWhileBody "endwhile".toList (by decide) (by decide)
+
+example : findCommands forTables (exPre ++ instrsFrom exPre.length
+      (Stmt.forIn "for".toList "i".toList "h".toList (.cons exIf exWhileBody) "end_for".toList).flatten ++ exPost)
+      (2 + 1) = .ok ⟨[], 25⟩ :=
+  C04_scan_for exPre exPost "for".toList "i".toList "h".toList (.cons exIf exWhileBody) "end_for".toList
+    (by decide) (by decide)
+
+example : findCommands fnTables (exPre ++ instrsFrom exPre.length
+      (Stmt.fnDef "fn".toList true "f".toList (.cons exIf exWhileBody) "end".toList).flatten ++ exPost)
+      (2 + 1) = .ok ⟨[], 25⟩ :=
+  C04_scan_fn exPre exPost "fn".toList true "f".toList (.cons exIf exWhileBody) "end".toList
+    (by decide) (by decide)
+
+example : findCommands fnTables (exPre ++ instrsFrom exPre.length
+      (Stmt.fnDef "fn".toList true "f".toList (.cons exIf exWhileBody) "end".toList).flatten ++ exPost) 3 =
+    .ok ⟨[], 25⟩ := by rfl
+
+end NonVacuity
 
 end Duck
